@@ -314,7 +314,12 @@ def sanitizer_leg(drv, merged, kind, sub, seed, shards, cases, extra=None, timeo
         out = os.path.join(tmp, "shard%d.json" % sh)
         env = drv.env_offline()
         args = [sub, "--seed", str(seed), "--shard", str(sh), "--cases", str(cases), "--out", out]
-        for k, v in (extra or {}).items():
+        ex = dict(extra or {})
+        if kind == "miri":
+            # the interpreter is about four orders of magnitude slower: none of the big scenarios
+            for k in ("wide_cases", "long_cases", "big_cases", "big_files", "long_streams"):
+                ex.setdefault(k, 0)
+        for k, v in ex.items():
             args += ["--" + k, str(v)]
         if kind == "miri":
             env["MIRIFLAGS"] = "-Zmiri-disable-isolation -Zmiri-seed=%d" % (seed * 100 + sh)
